@@ -120,3 +120,79 @@ pub fn run(progs: &str, depth: usize, out: &str) -> std::io::Result<()> {
     use std::io::Write;
     t.f.flush()
 }
+
+/// Transient device faults: on one reader over a device that transfers short (every page needs several device reads),
+/// operation A runs, then operation B with ONE device operation failing (the device recovers at once), then A again.
+/// The last A must give what a fresh reader gives (C17: "... and whether earlier operations failed").
+pub fn run_transient(progs: &str, out: &str) -> std::io::Result<()> {
+    let mut t = TraceOut::create(out)?;
+    let mut null = TraceOut::create("/dev/null")?;
+    for (pi, line) in std::fs::read_to_string(progs)?.lines().enumerate() {
+        if line.trim().is_empty() {
+            continue;
+        }
+        let prog: Value = serde_json::from_str(line).expect("program");
+        let dev = Dev::new();
+        let w = run_writer(&prog, &dev, &mut null);
+        if !(w.all_ok && w.finalize_called) {
+            continue;
+        }
+        let img = dev.snapshot();
+        let mk = || {
+            let d = Dev::from_bytes(img.clone());
+            d.set_chunks(vec![300, 724, 1, 500]);
+            d
+        };
+        let pcs = match E57Reader::new(mk()) {
+            Ok(r) => r.pointclouds(),
+            Err(_) => continue,
+        };
+        let mut ops: Vec<String> = vec!["xml".into(), "report".into()];
+        for i in 0..pcs.len() {
+            ops.push(format!("raw{i}"));
+            ops.push(format!("spart{i}_1"));
+        }
+        for j in 0..w.blobs.len() {
+            ops.push(format!("blob{j}"));
+        }
+        t.ev(json!({"ev":"reset","run":pi,"name":prog["name"],"variants":1}));
+        let mut fresh: HashMap<String, String> = HashMap::new();
+        let mut cost: HashMap<String, usize> = HashMap::new();
+        for op in &ops {
+            let d = mk();
+            let mut f = E57Reader::new(d.clone()).expect("reopen");
+            let before = d.opcount();
+            fresh.insert(op.clone(), outcome(catch(|| exec_op(&mut f, op, &pcs, &w.blobs))));
+            cost.insert(op.clone(), d.opcount() - before);
+        }
+        for a in &ops {
+            for b in &ops {
+                let nb = cost[b];
+                // every device operation of B for short ones, a spread for long ones
+                let step = (nb / 40).max(1);
+                let mut j = 0;
+                while j < nb {
+                    let d = mk();
+                    let mut rd = match catch(|| E57Reader::new(d.clone())) {
+                        Ok(Ok(r)) => r,
+                        _ => break,
+                    };
+                    let r1 = outcome(catch(|| exec_op(&mut rd, a, &pcs, &w.blobs)));
+                    d.set_fault(Some(d.opcount() + j));
+                    let r2 = outcome(catch(|| exec_op(&mut rd, b, &pcs, &w.blobs)));
+                    d.set_fault(None);
+                    let r3 = outcome(catch(|| exec_op(&mut rd, a, &pcs, &w.blobs)));
+                    let cls = |got: &String, op: &String, faulted: bool| {
+                        if got.starts_with("panic") { "panic" } else if got == &fresh[op] || (faulted && got == "err") { "same" } else { "diff" }
+                    };
+                    let classes = vec![cls(&r1, a, false), cls(&r2, b, true), cls(&r3, a, false)];
+                    let kinds: Vec<&str> = [a, b, a].iter().map(|o| if fresh[*o] == "err" { "err" } else { "ok" }).collect();
+                    t.ev(json!({"ev":"c17","variant":"transient_fault","seq":[a, format!("{b}!fault@{j}"), a],"classes":classes,"fresh":kinds}));
+                    j += step;
+                }
+            }
+        }
+    }
+    use std::io::Write;
+    t.f.flush()
+}
